@@ -13,6 +13,19 @@ static void put(vh::Out& o, const Matrix& M)
 			o.f(M[i][j]);
 }
 static Matrix rd_mat(vh::Reader& r) { return Matrix(r.table()); }
+// a new object with the entries of M, read without touching M's non-const interface
+static Matrix fresh(const Matrix& M)
+{
+	std::vector<std::vector<double>> e;
+	for(unsigned int i = 0; i < M.Rows(); i++)
+		e.push_back(M[i]);
+	if(e.empty() || e[0].size() != M.Columns())
+	{
+		Matrix F(M.Rows(), M.Columns(), 0.0);
+		return F;
+	}
+	return Matrix(e);
+}
 
 static void handler(vh::Reader& r, vh::Out& o)
 {
@@ -52,6 +65,98 @@ static void handler(vh::Reader& r, vh::Out& o)
 		o.f(B.Determinant());
 		o.f((A * B).Determinant());
 		o.f(A.Transpose().Determinant());
+	}
+	else if(op == "seq")
+	{
+		// A call history on ONE Matrix object.  After every query the same query is put to a fresh object built from the
+		// object's current entries (read through the const operator[] only): both answers are printed.
+		Matrix M = rd_mat(r);
+		long k	 = r.integer();
+		for(long s = 0; s < k; s++)
+		{
+			std::string st = r.word();
+			if(st == "det" || st == "copydet" || st == "transdet" || st == "subdet")
+			{
+				long i = 0, j = 0;
+				if(st == "subdet")
+				{
+					i = r.integer();
+					j = r.integer();
+				}
+				o.w("D");
+				for(int pass = 0; pass < 2; pass++)
+				{
+					Matrix F		= fresh(M);
+					const Matrix& Q = (pass == 0) ? M : F;
+					if(st == "det")
+						o.f(Q.Determinant());
+					else if(st == "copydet")
+					{
+						Matrix C(Q);
+						o.f(C.Determinant());
+					}
+					else if(st == "transdet")
+						o.f(Q.Transpose().Determinant());
+					else
+						o.f(Q.Sub_Matrix(i, j).Determinant());
+				}
+			}
+			else if(st == "invertible" || st == "orthogonal")
+			{
+				o.w("F");
+				Matrix F = fresh(M);
+				o.i((st == "invertible" ? M.Invertible() : M.Orthogonal()) ? 1 : 0);
+				o.i((st == "invertible" ? F.Invertible() : F.Orthogonal()) ? 1 : 0);
+			}
+			else if(st == "inverse")
+			{
+				o.w("X");
+				Matrix F = fresh(M);
+				put(o, M.Inverse());
+				put(o, F.Inverse());
+			}
+			else
+			{
+				if(st == "add")
+					M += rd_mat(r);
+				else if(st == "sub")
+					M -= rd_mat(r);
+				else if(st == "set")
+				{
+					long i = r.integer(), j = r.integer();
+					double v = r.num();
+					M[i][j]	 = v;
+				}
+				else if(st == "swap")
+				{
+					long i = r.integer(), j = r.integer();
+					std::swap(M[i], M[j]);
+				}
+				else if(st == "assignm")
+					M = rd_mat(r);
+				else if(st == "assign")
+				{
+					long i = r.integer(), j = r.integer();
+					double v = r.num();
+					M.Assign(i, j, v);
+				}
+				else if(st == "resize")
+				{
+					long i = r.integer(), j = r.integer();
+					M.Resize(i, j);
+				}
+				else if(st == "delrow")
+					M.Delete_Row(r.integer());
+				else if(st == "delcol")
+					M.Delete_Column(r.integer());
+				else
+				{
+					o.w("HARNESSERR unknown_step");
+					return;
+				}
+				o.w("U");
+			}
+		}
 	}
 	else
 		o.w("HARNESSERR unknown_op");
